@@ -2,7 +2,7 @@
 import srvprops
 
 PROP = "C01"
-THEOREMS = ["C01_confinement_every_op", "C01_confinement_frame", "C01_only_messages_and_directs_carry_payloads", "C01_no_cross_channel_leak", "C01_targets_cache_is_filtered_members", "C01_disconnected_user_is_no_member", "C01_oversize_settling_invents_no_frame", "C01_oversize_settling_invents_no_payload", "C01_conc_message_confinement", "C01_source_segment_layout", "C01_conc_namesake_inherits_during_cleanup_refuted", "C01_conc_targets_cache"]
+THEOREMS = ["C01_confinement_every_op", "C01_confinement_frame", "C01_only_messages_and_directs_carry_payloads", "C01_no_cross_channel_leak", "C01_targets_cache_is_filtered_members", "C01_disconnected_user_is_no_member", "C01_oversize_settling_invents_no_frame", "C01_oversize_settling_invents_no_payload", "C01_conc_message_confinement", "C01_source_segment_layout", "C01_conc_namesake_inherits_during_cleanup_refuted", "C01_conc_targets_cache", "C01_conc_no_cross_channel_leak"]
 
 
 import serverlib as sl
